@@ -317,3 +317,4 @@ def check(ctx):
     shared.registered_sockets_are_nonblocking(ctx)
     shared.worker_run_budget_rules(ctx)
     shared.thread_park_in_loop(ctx)
+    shared.thread_io_rules(ctx)
